@@ -207,6 +207,13 @@ EDGE = [
     "select * from int1.t1 where -(-t1.a) = 1",
     "select a from int1.t1 union select a from int2.t2 union all select a from int3.t3", "select a from int1.t1 union all select a from int1.t1 union select a from int1.t1",
     "select a from int1.t1 union select a from int1.t1 union all select a from int1.t1",
+    # a sub-select whose FROM lists (comma join) a table that the enclosing query reads too: it is a table of its own there
+    "select a from int1.t1 where exists (select 1 from int1.t1, int2.t2 where t1.a = t2.a)",
+    "select a from int1.t1 where not exists (select 1 from int1.t1, int2.t2 where t1.a = t2.a and t2.b = 1)",
+    "select a, (select max(t2.b) from int1.t1, int2.t2 where t1.a = t2.a) as m from int1.t1",
+    "select a from int1.t1 where a in (select t2.a from int2.t2, int1.t1 where t1.b = t2.b)",
+    "select x.a from int1.t1 as x where exists (select 1 from int1.t1 as x, int2.t2 where x.a = t2.a) order by x.a",
+    "select a from int1.t1 where b > (select min(u1.b) from int1.u1, int1.t1 where u1.a = t1.a)",
     "select 'C:\\tmp' as k, t1.a from int1.t1", "select 'it''s' as k, 'a\\\\b' as j from int1.t1 where t1.a = 1",
 ]
 
